@@ -143,8 +143,7 @@ struct DirectoryChunk {
     #[bw(calc = get_string_len(name) as u32)]
     name_length: u32,
 
-    #[br(count = name_length)]
-    #[br(map = read_string)]
+    #[br(parse_with = read_string_len, args(name_length as u64))]
     #[bw(map = write_string)]
     name: String,
 }
@@ -218,8 +217,18 @@ struct SqpkAddData {
 /// rather than reserving `length` (which comes from the file) up front.
 #[binrw::parser(reader)]
 fn read_exact_len(length: u64) -> binrw::BinResult<Vec<u8>> {
+    read_len(reader, length)
+}
+
+/// Like `read_exact_len`, for the length-prefixed strings (directory names, file paths).
+#[binrw::parser(reader)]
+fn read_string_len(length: u64) -> binrw::BinResult<String> {
+    Ok(read_string(read_len(reader, length)?))
+}
+
+fn read_len<R: Read>(reader: &mut R, length: u64) -> binrw::BinResult<Vec<u8>> {
     let mut data = Vec::new();
-    std::io::Read::take(&mut *reader, length).read_to_end(&mut data)?;
+    reader.take(length).read_to_end(&mut data)?;
     if data.len() as u64 != length {
         return Err(binrw::Error::Io(std::io::ErrorKind::UnexpectedEof.into()));
     }
@@ -295,8 +304,7 @@ struct SqpkFileOperationData {
     #[brw(pad_after = 2)]
     expansion_id: u16,
 
-    #[br(count = path_length)]
-    #[br(map = read_string)]
+    #[br(parse_with = read_string_len, args(path_length as u64))]
     #[bw(map = write_string)]
     path: String,
 }
